@@ -252,7 +252,7 @@ func main() {
 	// Coq shards, which are cut by case count, carry similar loads)
 	nr, maxLen := 100, 200
 	if a.Thorough() {
-		nr, maxLen = 4000, 600
+		nr, maxLen = 2000, 400
 	}
 	type rcase struct {
 		size   int
@@ -311,9 +311,9 @@ func main() {
 	sample := map[int]int{4: 8, 5: 1} // 1/300ths of the cases of that length replayed by the model
 	every := 40                         // one random case per this many model cases
 	if a.Thorough() {
-		maxGo, fullCoq = 6, 5
-		sample = map[int]int{6: 3}
-		every = 55
+		maxGo, fullCoq = 6, 4
+		sample = map[int]int{5: 30, 6: 2} // per 300
+		every = 28
 	}
 	swept, sinceRandom := 0, 0
 	var rec func(prefix []byte, n int)
